@@ -105,9 +105,23 @@ func rulesC04(c *Ctx) {
 		nRet := 0
 		for _, r := range call.Returns() {
 			rv := g.VertexOf(r)
-			// identify returns inside the case clause `ctx.Err() != nil`
-			cc, _ := call.Enclosing(r, func(n ast.Node) bool { _, ok := n.(*ast.CaseClause); return ok }).(*ast.CaseClause)
-			if cc == nil || !clauseTestsCtxErr(call, cc) {
+			// identify the returns of the arm `ctx.Err() != nil` — a case of the switch or a branch of an if chain: the test
+			// holds on every path to them
+			inCtxArm := func(v int) bool {
+				return hasAtom(g.GuardsAt(v), func(a Atom) bool {
+					x, twn, ok := NilTest(a.E)
+					if !ok || a.Val == twn {
+						return false
+					}
+					ce, ok := ast.Unparen(x).(*ast.CallExpr)
+					if !ok {
+						return false
+					}
+					fn := call.Callee(ce)
+					return fn != nil && fn.Name() == "Err" && fn.Pkg() != nil && fn.Pkg().Path() == "context"
+				})
+			}
+			if !inCtxArm(rv) {
 				continue
 			}
 			if isDebug(g.GuardsAt(rv)) {
@@ -119,7 +133,7 @@ func rulesC04(c *Ctx) {
 			okR := false
 			for _, v := range g.callVertices(retireObj) {
 				rc := call.CallsIn(g.Node(v), retireObj, false)[0]
-				if g.Dominates(v, rv) && len(rc.Args) == 2 && call.ObjOf(rc.Args[0]) == acVar && encloses(cc, rc) {
+				if g.Dominates(v, rv) && len(rc.Args) == 2 && call.ObjOf(rc.Args[0]) == acVar && inCtxArm(v) {
 					okR = true
 				}
 			}
@@ -132,7 +146,7 @@ func rulesC04(c *Ctx) {
 					if _, isGo := n.(*ast.GoStmt); isGo {
 						continue
 					}
-					if encloses(cc, n) && !isDebug(g.GuardsAt(v)) && g.ReachableFrom(v)[rv] {
+					if inCtxArm(v) && !isDebug(g.GuardsAt(v)) && g.ReachableFrom(v)[rv] {
 						blocked = true
 					}
 				}
